@@ -26,7 +26,11 @@ LEVEL_TEXT = ("Theorems in coq/Props/C07.v over Model/Line.v/Codec.v (line const
               "lookups, get/set/validate, str) are decided by the oracle, not proved.")
 RULE = ("all lines of up to 3 fields over a 9-symbol field alphabet per record type (exhaustive), all single-character "
         "substitutions/deletions/insertions at sampled positions of generated valid documents, hostile API arguments (empty, "
-        "'*', tabs, newlines, very long, non-existent names, reserved names); versions gfa1/gfa2/unknown; levels 0-3. "
+        "'*', tabs, newlines, very long, non-existent names, reserved names); every public attribute and every argument-less "
+        "method of every line (each on a copy) and of the Gfa and its connected lines (each on a Gfa of its own; the "
+        "operations of F75 probed separately); valid edits of connected lines followed by removals by instance and by "
+        "identifier; hand-made documents with unusual shapes (groups listing each other, loops, lines given twice) first; "
+        "versions gfa1/gfa2/unknown; levels 0-3. "
         "Non-trivial: the call raised a gfapy error or succeeded on a mutated input.")
 
 
